@@ -9,7 +9,7 @@
 //! with the core `Value` decoder must equal the predicted value. The next hop gets the REAL bytes.
 
 use crate::model::{self, Tokens};
-use aldrin_core::tags::PrimaryTag;
+use aldrin_core::tags::{PrimaryTag, Tag};
 use aldrin_core::{
     DeserializePrimary, ProtocolVersion, Serialize, SerializeError, SerializePrimary, SerializedValue,
     SerializedValueSlice, Value,
@@ -62,6 +62,15 @@ where
         Ok(v) => Outcome::Accepted(v),
         Err(e) => Outcome::SerializeFailed(format!("{e:?}")),
     }
+}
+
+/// `SerializedValue::serialize_as` with both generics nameable (used by the generated entry table).
+pub fn ser_as<T: Tag, U: Serialize<T>>(value: U) -> Result<SerializedValue, SerializeError> {
+    SerializedValue::serialize_as::<T>(value)
+}
+
+fn bytes_of(v: &SerializedValue) -> &[u8] {
+    v
 }
 
 fn hex(b: &[u8]) -> String {
@@ -128,7 +137,7 @@ impl Run<'_> {
             return Err("the legacy encoding of the input decodes to a different value".to_owned());
         }
         let mut inputs = vec![("v2", v2.clone())];
-        if v1[..] != v2[..] {
+        if bytes_of(&v1) != bytes_of(&v2) {
             inputs.push(("v1", v1));
             self.v1_inputs += 1;
         }
